@@ -65,6 +65,11 @@ CLAIMED = {
          "Five applications (incl. one with a WithFirst function and a paginated sink mid-browse) x all valid histories up to depth 2 (quick) / 3 (thorough) x every insertion position x nine refused inputs (pattern failures, control bytes, 256 and 300 bytes) x three client behaviours after the refusal x {long-lived, persisted-mem, persisted-fs}: the refused request errors, runs no application code and no instruction, the stored snapshot is unchanged, and every other request is identical to the run without it; Flush before Exec is refused without effect.",
          "Trusted: nothing beyond the engine's own behaviour on the undisturbed history (differential oracle).",
          "DESIGN.md §4 C17"),
+ "C18": ("model_checking",
+         "stateless DFS with replay over input histories x language-switch answers on a language application family, reference VM in lockstep plus per-lookup language check on the recording resource",
+         "Applications that switch language before the first HALT, while handling input, in a child node and right before the end; every switch answer is a choice among valid 2/3-letter codes, invalid strings and a valid code without the LANG flag; config language on/off; translations present for subsets of {entry template, child template, menu label}; all histories up to depth 3 (quick) / 4 (thorough) in long-lived and persisted operation. Every template, menu and external-function lookup must carry the session's language, rendered text must be the translation where one exists and the default otherwise, also after save/resume; unknown codes leave the language unchanged.",
+         "Trusted: ref.VM's language rule (config, then last valid code). resource.DbResource's own translation fallback is exercised by C10, not here.",
+         "DESIGN.md §4 C18"),
 }
 
 NOT_YET = {}
